@@ -251,7 +251,7 @@ func Format(cfg *Config, format string, args []string) (string, int, error) {
 	cfg = prepareConfig(cfg)
 	sb := cfg.strBuilder()
 
-	consumed, err := formatInto(sb, format, args)
+	consumed, err := formatInto(sb, format, args, false)
 	if err != nil {
 		return "", 0, err
 	}
@@ -259,7 +259,9 @@ func Format(cfg *Config, format string, args []string) (string, int, error) {
 	return sb.String(), consumed, err
 }
 
-func formatInto(sb *strings.Builder, format string, args []string) (int, error) {
+// formatInto implements [Format]. When percentB is true, format is the argument
+// to a %b verb: its octal escapes are of the form \0NNN rather than \NNN.
+func formatInto(sb *strings.Builder, format string, args []string, percentB bool) (int, error) {
 	var fmts []byte
 	initialArgs := len(args)
 
@@ -311,7 +313,12 @@ func formatInto(sb *strings.Builder, format string, args []string) (int, error) 
 			case '\\', '\'', '"', '?': // just the character
 				sb.WriteByte(c)
 			case '0', '1', '2', '3', '4', '5', '6', '7':
-				digits := readDigits(3, false)
+				max := 3
+				if percentB && c == '0' {
+					// %b takes up to three digits after the zero
+					max = 4
+				}
+				digits := readDigits(max, false)
 				// up to three octal digits; like bash, values
 				// above 0377 wrap around to a single byte
 				n, _ := strconv.ParseUint(digits, 8, 16)
@@ -377,7 +384,7 @@ func formatInto(sb *strings.Builder, format string, args []string) (int, error) 
 					// Passing in nil for args ensures that % format
 					// strings aren't processed; only escape sequences
 					// will be handled.
-					_, err := formatInto(sb, arg, nil)
+					_, err := formatInto(sb, arg, nil, true)
 					if err != nil {
 						return 0, err
 					}
